@@ -58,35 +58,70 @@ let nat_check line =
     verdict (o = want) ("natural-order-of-token-keys-is-" ^ cmp_s want)
   | None -> verdict false ("outcome:" ^ i)
 
-(* cmp: "attr i j names" *)
+(* ---- recorded float oracle: "f64:<16 hex digits | none | nan>,..." one cell per name ---- *)
+let key_of_bits (h : string) : z =
+  let b = Int64.of_string ("0x" ^ h) in
+  let mag = Int64.logand b 0x7fffffffffffffffL in
+  let zs = z_of_string (Int64.to_string mag) in
+  if Int64.compare b 0L < 0 then Z.opp zs else zs
+
+let parse_tbl (names : n list list) (tok : string) : (n list * z option) list =
+  let cells = String.split_on_char ',' (String.sub tok 4 (String.length tok - 4)) in
+  if names = [] then [] else
+  List.map2 (fun nm c -> (nm, match c with "none" | "nan" -> None | h -> Some (key_of_bits h))) names cells
+
+let is_tbl tok = String.length tok >= 4 && String.sub tok 0 4 = "f64:"
+
+(* implementation lines are "<result> | f64:..." *)
+let split_impl (i : string) : string * string option =
+  match String.index_opt i '|' with
+  | Some k when k >= 1 && k + 2 <= String.length i ->
+    (String.sub i 0 (k - 1), Some (String.sub i (k + 2) (String.length i - k - 2)))
+  | _ -> (i, None)
+
+(* cmp / wcmp: "attr i j names [f64:...]" *)
 let cmp_case line = match toks line with
-  | [attr; i; j; names] ->
+  | attr :: i :: j :: names :: rest ->
     let names = dec_names names in
     let i = int_of_string i and j = int_of_string j in
-    (attr_of_s attr, (n_of_small i, nth_name names i), (n_of_small j, nth_name names j))
+    let tbl = (match rest with [t] when is_tbl t -> Some (parse_tbl names t) | _ -> None) in
+    (attr_of_s attr, (n_of_small i, nth_name names i), (n_of_small j, nth_name names j), names, tbl)
   | _ -> failwith "cmp"
 
-let cmp line = let (attr, x, y) = cmp_case line in cmp_s (arg_cmp_dec attr x y)
+let cmp line =
+  let (attr, x, y, _, tbl) = cmp_case line in
+  match tbl with
+  | None -> cmp_s (arg_cmp_dec attr x y)
+  | Some t -> cmp_s (arg_cmp_tbl t attr x y)
 
-let cmp_check line =
+(* the specification is evaluated with the exact decimal oracle (cmp, sort) or with the
+   recorded one (wcmp, wsort); in both the recorded oracle must follow the modelled grammar *)
+let cmp_check_gen recorded line =
   let (c, i) = split_sb line in
-  let (attr, x, y) = cmp_case c in
-  match cmp_of_s i with
-  | Some o ->
-    let want = spec_arg_cmp_dec attr x y in
-    verdict (o = want) ("specified-order-is-" ^ cmp_s want)
-  | None -> verdict false ("outcome:" ^ i)
+  let (attr, x, y, names, _) = cmp_case c in
+  let (res, tbl) = split_impl i in
+  match cmp_of_s res, tbl with
+  | Some o, Some t when is_tbl t ->
+    let tb = parse_tbl names t in
+    if not (tbl_grammar_ok tb) then verdict false "a-name-parses-as-f64-differently-from-the-modelled-grammar"
+    else
+      let want = if recorded then spec_arg_cmp_tbl tb attr x y else spec_arg_cmp_dec attr x y in
+      verdict (o = want) ("specified-order-is-" ^ cmp_s want)
+  | _ -> verdict false ("outcome:" ^ i)
 
-(* sort: "attr reverse names" *)
+(* sort / wsort: "attr reverse names [f64:...]" *)
 let sort_case line = match toks line with
-  | [attr; rev; names] -> (attr_of_s attr, bool_of_s rev, dec_names names)
+  | attr :: rev :: names :: rest ->
+    let names = dec_names names in
+    let tbl = (match rest with [t] when is_tbl t -> Some (parse_tbl names t) | _ -> None) in
+    (attr_of_s attr, bool_of_s rev, names, tbl)
   | _ -> failwith "sort"
 
 let perm_s l = if l = [] then "ok -" else "ok " ^ list_s string_of_n l
 
 let sort line =
-  let (attr, rev, names) = sort_case line in
-  match sort_args_dec attr rev names with
+  let (attr, rev, names, tbl) = sort_case line in
+  match (match tbl with None -> sort_args_dec attr rev names | Some t -> sort_args_tbl t attr rev names) with
   | Ok l -> perm_s l
   | Panic p -> "panic " ^ string_of_panic p
 
@@ -95,12 +130,18 @@ let parse_perm s = match toks s with
   | ["ok"; l] -> (try Some (List.map n_of_string (String.split_on_char ',' l)) with Failure _ -> None)
   | _ -> None
 
-let sort_check line =
+let sort_check_gen recorded line =
   let (c, i) = split_sb line in
-  let (attr, rev, names) = sort_case c in
-  match parse_perm i with
-  | Some out -> verdict (sort_sb_dec attr rev names out) "not-the-sorted-permutation-of-the-specified-order"
-  | None -> verdict false ("outcome:" ^ i)
+  let (attr, rev, names, _) = sort_case c in
+  let (res, tbl) = split_impl i in
+  match parse_perm res, tbl with
+  | Some out, Some t when is_tbl t ->
+    let tb = parse_tbl names t in
+    if not (tbl_grammar_ok tb) then verdict false "a-name-parses-as-f64-differently-from-the-modelled-grammar"
+    else
+      verdict (if recorded then sort_sb_tbl tb attr rev names out else sort_sb_dec attr rev names out)
+        "not-the-sorted-permutation-of-the-specified-order"
+  | _ -> verdict false ("outcome:" ^ i)
 
 (* class: "name" -> class of the name (input histogram / domain check) *)
 let cls line = string_of_n (name_class (dec_name line))
@@ -276,10 +317,12 @@ let dispatch mode line =
   match mode with
   | "nat" -> nat line
   | "nat.sb" -> nat_check line
-  | "cmp" -> cmp line
-  | "cmp.sb" -> cmp_check line
-  | "sort" -> sort line
-  | "sort.sb" -> sort_check line
+  | "cmp" | "wcmp" -> cmp line
+  | "cmp.sb" -> cmp_check_gen false line
+  | "wcmp.sb" -> cmp_check_gen true line
+  | "sort" | "wsort" -> sort line
+  | "sort.sb" -> sort_check_gen false line
+  | "wsort.sb" -> sort_check_gen true line
   | "tree" -> tree line
   | "tree.sb" -> tree_check line
   | "class" -> cls line
